@@ -416,7 +416,7 @@ static void run_C04(const Args &a, long cs) {
 			double st = (0.01 + r.U() * r.U() * 1e3) * sc;
 			if (kind == 4) st = std::pow(10.0, r.U() * 12 - 6);
 			if (kind == 5) st = sc * (1 + r.below(3));
-			if (kind == 1 && o >= 1 && i > (int)o && i < nk - (int)o - 2 && r.coin(0.35)) st = 0;
+			if (kind == 1 && o >= 1 && i > (int)o && (i < nk - (int)o - 2 || (i == nk - (int)o - 2 && r.coin(0.5))) && r.coin(0.35)) st = 0; // (i == nk-o-2: the top knot of full support repeats the one below it)
 			x += st;
 		}
 		if (kind == 7) { k.clear(); double lo = -1.6e308 * (0.8 + 0.2 * r.U()), hi = 1.6e308 * (0.8 + 0.2 * r.U()); std::vector<double> u; for (int i = 0; i < nk; i++) u.push_back(r.U()); std::sort(u.begin(), u.end()); u[0] = 0; u[nk - 1] = 1; for (int i = 0; i < nk; i++) k.push_back(lo * (1 - u[i]) + hi * u[i]); for (int i = 1; i < nk; i++) if (!(k[i] > k[i - 1])) k[i] = std::nextafter(k[i - 1], INFINITY); }
@@ -466,7 +466,11 @@ static void run_C04(const Args &a, long cs) {
 			if (C.ok && cc.p[d] != c.p[d]) { viol("C04:tablesearchcenters:centers-differ-from-C++", pj); bad = true; break; }
 			bool infull = xv[d] >= k[o] && xv[d] <= k[nax];
 			if (infull) {
-				bool br = (k[c.p[d]] <= xv[d] && xv[d] < k[c.p[d] + 1]) || (xv[d] == k[nax] && c.p[d] == nax - 1);
+				// at the right end of the supported range the bracket is the last supported interval whose right end x is; when the top knot is a repeated one the
+				// intervals directly below it are empty (no polynomial piece) and the last non-empty one is meant
+				int lastne = nax - 1; while (lastne > o && k[lastne] == k[lastne + 1]) lastne--;
+				bool br = (k[c.p[d]] <= xv[d] && xv[d] < k[c.p[d] + 1]) || (xv[d] == k[nax] && c.p[d] == lastne);
+				if (xv[d] == k[nax] && lastne != nax - 1) count("lookups-on-a-repeated-top-knot");
 				if (!br) { viol("C04:searchcenters:center-does-not-bracket", pj); bad = true; break; }
 				count("bracket-checks");
 			} else {
